@@ -16,6 +16,7 @@ import GwModel.ExecSeq
 import GwModel.ScrubApply
 import GwModel.MergeSig
 import GwModel.NewOpts
+import GwModel.Middleware
 import GwModel.GwQuery
 /-! gwdrv: one JSON object per line in, one per line out (DESIGN §2.2). Core + Lean.Data.Json only. -/
 open Lean Codec
@@ -255,6 +256,18 @@ def decArgDefs (js : List Json) : List Ms.ArgDef :=
   js.map fun a => { name := getStr a "name", type := decTy ((getObj? a "type").getD (Json.mkObj [])),
                     default := (getObj? a "default").bind fun d => match d with | .null => none | _ => some (decV d) }
 
+/-- {"execErrs":[..], "scrubFails":bool, "mws":[{"id":n,"fails":bool}]}: the tail of Gateway.Execute through `Mw.execute`
+    (responses are opaque: the data is the number of middlewares that have touched it) -/
+def runMwExecute (j : Json) : Json :=
+  let mk (id : Nat) (fails : Bool) : Mw.RMw Nat String :=
+    ⟨id, fun d => if fails then .error ("middleware " ++ toString id ++ " failed") else .ok (d + 1)⟩
+  let scrub := mk 0 (getBool j "scrubFails")
+  let user := (getArr j "mws").map fun m => mk (getNat m "id") (getBool m "fails")
+  let (log, data, errs) := Mw.execute scrub user 0 (strList j "execErrs")
+  Json.mkObj [("log", .arr (log.map fun n => Json.num (JsonNumber.fromNat n)).toArray),
+    ("data", match data with | some d => .num (JsonNumber.fromNat d) | none => .null),
+    ("errors", .arr (errs.map Json.str).toArray)]
+
 /-! the gateway's own resolver (`Gq.query`) -/
 def decGqVal (j : Json) : Gq.Val :=
   match getStr j "k" with
@@ -342,6 +355,7 @@ def handle (j : Json) : Json :=
   | "mergesig" => runMergeSig j
   | "new-options" => runNewOptions j
   | "gateway-query" => runGatewayQuery j
+  | "mw-execute" => runMwExecute j
   | "plan" => PlanCodec.runPlan j
   | "trace" => runTrace j
   | "exec" => runExec j
